@@ -4,8 +4,10 @@ import (
 	"context"
 	"encoding/json"
 	"fmt"
+	"math/rand"
 	"os"
 	"runtime"
+	"time"
 )
 
 var extraCmds = map[string]func(in string){}
@@ -163,5 +165,66 @@ func init() {
 			}
 		}
 		fmt.Println("no hang")
+	}
+}
+
+func init() {
+	extraCmds["slowsel"] = func(in string) {
+		f, _ := os.ReadFile(in)
+		var c Case
+		if err := json.Unmarshal(f, &c); err != nil {
+			panic(err)
+		}
+		go func() {
+			time.Sleep(200 * time.Second)
+			buf := make([]byte, 1<<20)
+			n := runtime.Stack(buf, true)
+			fmt.Fprintf(os.Stderr, "WATCHDOG\n%s\n", buf[:n])
+			os.Exit(7)
+		}()
+		_, clean := countEvents(&c)
+		fmt.Println("clean kind", clean.Kind, trunc(clean.Err))
+		t0 := time.Now()
+		fmt.Println("slowSelectFaults:", slowSelectFaults(&c, clean), time.Since(t0))
+		t0 = time.Now()
+		fmt.Println("laggingFaults:", laggingFaults(&c, clean, rand.New(rand.NewSource(1)), false), time.Since(t0))
+		t0 = time.Now()
+		kinds, _ := countEvents(&c)
+		fmt.Println("events:", len(kinds), time.Since(t0))
+	}
+}
+
+func init() {
+	extraCmds["repeat"] = func(in string) {
+		f, _ := os.ReadFile(in)
+		var c Case
+		if err := json.Unmarshal(f, &c); err != nil {
+			panic(err)
+		}
+		if c.Procs > 0 {
+			runtime.GOMAXPROCS(c.Procs)
+		}
+		var first Result
+		diffs := 0
+		for i := 0; i < 60; i++ {
+			r := c.Exec(context.Background(), NewThanos(&c, EngOpts{DisableFallback: true}), NewMemStorage(c.Data()))
+			if i == 0 {
+				first = r
+				continue
+			}
+			if d := Diff(r, first); d != "" {
+				diffs++
+				if diffs <= 2 {
+					fmt.Println("run", i, "differs:", d)
+					for _, s := range r.Series {
+						fmt.Println("   now  ", s.Labels, s.Pts)
+					}
+					for _, s := range first.Series {
+						fmt.Println("   first", s.Labels, s.Pts)
+					}
+				}
+			}
+		}
+		fmt.Println("differing runs:", diffs)
 	}
 }
